@@ -1,8 +1,9 @@
 import Driver.Util
-import JadeModel.Model.Results
+import JadeModel.Model.ResultsFault
 
-/-! Driver ops for `Model/Results.lean` (suite `results`, property C08).  The byte-level model
-(`byteOps`) is executed, so file contents are compared byte for byte. -/
+/-! Driver ops for `Model/Results.lean` + `Model/ResultsFault.lean` (suite `results`, property C08).
+The byte-level model (`byteOpsX`) is executed, so file contents are compared byte for byte; a history
+without fault / kill operations runs exactly the base model (`C08_faultfree_is_base`). -/
 
 namespace Jade.Driver
 open Lean Jade.Results Jade.Gen.Results
@@ -40,6 +41,31 @@ def opOfJson (j : Json) : R (Op Row) := do
   | "cancel" => pure (.cancelAppend (← nat j "p") (← rowOfJson (← fld j "row")))
   | _ => throw s!"unknown op kind {t}"
 
+def faultOfString : String → R FaultAt
+  | "read" => pure .read
+  | "open" => pure .open
+  | "write" => pure .write
+  | "remove" => pure .remove
+  | w => throw s!"unknown fault point {w}"
+
+def dieOfString : String → R DieAt
+  | "opened" => pure .opened
+  | "removed" => pure .removed
+  | w => throw s!"unknown kill point {w}"
+
+/-- `fault` arms one OSError, `kill` with `at` arms a death inside the next matching step, `kill`
+    without `at` is a death at the current yield point, `breakLocks` removes stale markers -/
+def opXOfJson (j : Json) : R (OpX Row) := do
+  let t ← str j "t"
+  match t with
+  | "fault" => pure (.arm (← nat j "p") (.fail (← faultOfString (← str j "what"))))
+  | "kill" =>
+    match (← optStr j "at") with
+    | none => pure (.kill (← nat j "p"))
+    | some a => pure (.arm (← nat j "p") (.die (← dieOfString a)))
+  | "breakLocks" => pure .breakLocks
+  | _ => pure (.base (← opOfJson j))
+
 /-- ascending insertion sort of batch ids (canonical order of set-like output) -/
 def insertSorted (x : Nat) : List Nat → List Nat
   | [] => [x]
@@ -66,6 +92,9 @@ def dump (batches : List Nat) (s : State Row (List Char)) : Json :=
     ("nodeLocked", jnats ((sortNats batches).filter fun b => (s.nodeLock b).isSome)),
     ("returned", jarr (s.returned.map retToJson))]
 
+def dumpX (batches : List Nat) (x : XState Row (List Char)) : Json :=
+  (dump batches x.base).setObjVal! "dead" (jnats (sortNats x.dead))
+
 def opBatches : Op Row → List Nat
   | .append _ b _ => [b]
   | .beginCollect _ snap => snap
@@ -76,18 +105,30 @@ def changed (batches : List Nat) (s s' : State Row (List Char)) : Bool :=
   (dump batches s).compress != (dump batches s').compress || s.written.length != s'.written.length ||
     s.canceled.length != s'.canceled.length || s.moved.length != s'.moved.length
 
-def runDump (s : State Row (List Char)) (batches : List Nat) : List (Op Row) → List Json
+def opXBatches : OpX Row → List Nat
+  | .base op => opBatches op
+  | _ => []
+
+/-- did the operation do anything: a base operation changed a file, a lock, a ghost log or killed its
+    process; arming / killing applies to a process that is not dead; breaking removed a marker -/
+def okX (batches : List Nat) (x x' : XState Row (List Char)) : OpX Row → Bool
+  | .base _ => changed batches x.base x'.base || x.dead.length != x'.dead.length
+  | .arm p _ => !x.dead.contains p
+  | .kill p => !x.dead.contains p
+  | .breakLocks => (dump batches x.base).compress != (dump batches x'.base).compress
+
+def runDump (x : XState Row (List Char)) (batches : List Nat) : List (OpX Row) → List Json
   | [] => []
   | op :: ops =>
-    let s' := step byteOps s op
-    (dump batches s').setObjVal! "ok" (jbool (changed batches s s')) :: runDump s' batches ops
+    let x' := stepX byteOpsX x op
+    (dumpX batches x').setObjVal! "ok" (jbool (okX batches x x' op)) :: runDump x' batches ops
 
 end Results
 
 open Results in
 def resultsOps : List (String × (Json → R Json)) := [
   ("results.run", fun j => do
-    let ops ← (← arr j "ops").toList.mapM opOfJson
+    let ops ← (← arr j "ops").toList.mapM opXOfJson
     -- "created": `ResultsAggregator.create` ran before the operations (default true)
     let created := (bool j "created").toOption.getD true
     let s0 : State Row (List Char) := init byteOps created
@@ -106,8 +147,8 @@ def resultsOps : List (String × (Json → R Json)) := [
           | _ => throw "init.nodes entries are [batch, text]"
         pure (ns.foldl (fun (s : State Row (List Char)) (bt : Nat × List Char) =>
           { (s.setNode bt.1 (some bt.2)) with dir := if (s.node bt.1).isSome then s.dir else s.dir ++ [bt.1] }) s1)
-    let batches := (s0.dir ++ ops.flatMap opBatches).eraseDups
-    pure <| jarr (runDump s0 batches ops)),
+    let batches := (s0.dir ++ ops.flatMap opXBatches).eraseDups
+    pure <| jarr (runDump { base := s0, dead := [], armed := fun _ => none } batches ops)),
   ("results.render", fun j => do
     let rows ← (← arr j "rows").toList.mapM rowOfJson
     -- what the harness drives: `create` then `_append_processed_results(rows)`
